@@ -55,9 +55,9 @@ def leaves(t, prefix=""):
     return out, metas
 
 
-def tensor_fp(t):
+def tensor_fp(t, ignore_meta=()):
     """Fingerprint of any tensor (wrapper or plain): type, shape, dtype, strides are NOT included for plain data
-    equality; bytes of all leaves + metas are."""
+    equality; bytes of all leaves + metas are (minus the meta keys whose last component is in ignore_meta)."""
     t = unwrap_param(t)
     h = hashlib.sha256()
     if is_wrapper(t):
@@ -69,6 +69,8 @@ def tensor_fp(t):
             h.update(str(tuple(lv[k].shape)).encode())
             h.update(plain_bytes(lv[k]))
         for k in sorted(metas):
+            if k.rsplit(".", 1)[-1] in ignore_meta:
+                continue
             h.update((k + "=" + metas[k]).encode())
     else:
         h.update(str(t.dtype).encode())
@@ -77,13 +79,13 @@ def tensor_fp(t):
     return h.hexdigest()[:24]
 
 
-def state_fp(module):
+def state_fp(module, ignore_meta=()):
     """Fingerprint of every parameter, buffer and quantization attribute of a module tree."""
     out = {}
     for name, p in module.named_parameters():
-        out["P:" + name] = tensor_fp(p)
+        out["P:" + name] = tensor_fp(p, ignore_meta)
     for name, b in module.named_buffers():
-        out["B:" + name] = tensor_fp(b)
+        out["B:" + name] = tensor_fp(b, ignore_meta)
     for name, m in module.named_modules():
         for attr in ("weight_qtype", "activation_qtype", "weight_group_size"):
             if hasattr(m, attr):
